@@ -246,14 +246,17 @@ def translator_validation(P, native, seed, n_random):
             mine[name] = scr.normalise(sc.trace)
     ok = [(n, s) for n, s in vs if not (isinstance(mine[n], tuple) and mine[n][0] == 'model-stopped')]
     G['validation_skipped'] = len(vs) - len(ok)
-    res, rc, err = native.run(ok, seed=0)
+    res = native.run_each(ok, seed=0)
     for name, s in ok:
         if name not in res:
-            mism.append((name, 'native produced no output (rc=%s)' % rc))
+            mism.append((name, 'native produced no output'))
             continue
         nt = scr.normalise(res[name]['trace'])
+        if res[name].get('crashed') is not None:
+            # the process was killed inside this script (abort / signal): comparable with a model run that ends in abort
+            nt = nt + [['abort']]
         if mine[name] != nt:
-            mism.append((name, 'model %r vs native %r' % (mine[name], nt)))
+            mism.append((name, 'model %r vs native %r' % (mine[name][-6:] if isinstance(mine[name], list) else mine[name], nt[-6:])))
     vs = ok
     return len(vs), mism
 
@@ -357,6 +360,10 @@ def replay_violation(P, native, v, scratch):
                 break
         if not is_mem:
             k = len(model_trace)
+            if v['clause'].endswith('unexpected-abort') and crashed and model_trace and model_trace[-1] == ['abort'] and nt[:k - 1] == model_trace[:-1] and len(nt) <= k:
+                confirmed = True
+                how.append('native seed %d: the process is killed (rc=%s) at the same point of the script at which the model predicts the abort' % (seed, rc))
+                break
             if k > 0 and nt[:k] == model_trace and model_out in ('violation', 'ub'):
                 confirmed = True
                 how.append('native seed %d: trace equals the model trace up to the violating observation' % seed)
